@@ -507,7 +507,9 @@ class Directory(object):
                 # this is a late un-publication from its previous host.
                 return
             self._computations_data.pop(computation)
-            self.discovery.unregister_computation(computation)
+            # (local un-registration only: publishing would send the directory
+            # a second, anonymous and late, un-publication of this computation)
+            self.discovery.unregister_computation(computation, publish=False)
         except (KeyError, UnknownComputation):
             return
         # notify interested agents
